@@ -200,7 +200,8 @@ impl<'a, R: Read> FixedReader<'a, R> {
 
 impl<R: Read> Read for FixedReader<'_, R> {
     fn read(&mut self, buf: &mut [u8]) -> io::Result<usize> {
-        if self.remaining == 0 {
+        // an empty caller buffer reads nothing; it says nothing about the body being cut short
+        if self.remaining == 0 || buf.is_empty() {
             return Ok(0);
         }
         let to_read = min(self.remaining, buf.len());
